@@ -34,3 +34,43 @@ pub fn install_stubs() {
 pub fn set_now(ts: i64) { NOW.store(ts, Ordering::SeqCst); }
 pub fn set_slot(s: u64) { SLOT.store(s, Ordering::SeqCst); }
 pub fn set_last_restart_slot(s: u64) { LAST_RESTART_SLOT.store(s, Ordering::SeqCst); }
+
+// ---------------------------------------------------------------------------------------------
+// In-memory accounts for native calls (shared by several bins).
+use anchor_lang::prelude::{AccountInfo, Pubkey};
+
+/// Deterministic pubkey from a small integer (never on-curve issues matter natively).
+pub fn pk(n: u64) -> Pubkey {
+    let mut b = [0u8; 32];
+    b[..8].copy_from_slice(&n.to_le_bytes());
+    b[31] = 0xA5;
+    Pubkey::new_from_array(b)
+}
+
+/// Leak an account with `len` data bytes whose data pointer is ≡ 8 (mod 16), so that a
+/// zero-copy struct placed after the 8-byte discriminator is 16-byte aligned (u128 fields).
+pub fn leak_account(key: Pubkey, owner: Pubkey, len: usize, is_signer: bool, is_writable: bool) -> AccountInfo<'static> {
+    let words = (len + 8) / 16 + 2;
+    let buf: &'static mut [u128] = Box::leak(vec![0u128; words].into_boxed_slice());
+    let bytes: &'static mut [u8] = unsafe { std::slice::from_raw_parts_mut((buf.as_mut_ptr() as *mut u8).add(8), len) };
+    let lamports: &'static mut u64 = Box::leak(Box::new(1_000_000_000u64));
+    let key: &'static Pubkey = Box::leak(Box::new(key));
+    let owner: &'static Pubkey = Box::leak(Box::new(owner));
+    AccountInfo::new(key, is_signer, is_writable, lamports, bytes, owner, false, 0)
+}
+
+/// Leak a zero-copy account of type `T` owned by `owner`: discriminator ++ zeroed `T`, then `init`.
+pub fn zero_copy_account<T>(key: Pubkey, owner: Pubkey, init: impl FnOnce(&mut T)) -> AccountInfo<'static>
+where
+    T: anchor_lang::ZeroCopy + anchor_lang::Discriminator + bytemuck::Pod,
+{
+    let len = 8 + std::mem::size_of::<T>();
+    let info = leak_account(key, owner, len, false, true);
+    {
+        let mut data = info.try_borrow_mut_data().unwrap();
+        data[..8].copy_from_slice(T::DISCRIMINATOR);
+        let t: &mut T = bytemuck::from_bytes_mut(&mut data[8..]);
+        init(t);
+    }
+    info
+}
